@@ -441,7 +441,7 @@ func c05UpdateBodies(c *harness.Ctx) bool {
 
 // ---------- (c) API sequences ----------
 
-var c05APIOps = []string{"addA", "addB", "addInvalid", "delA", "getA", "list", "serve", "close"}
+var c05APIOps = []string{"addA", "addB", "addInvalid", "delA", "getA", "list", "serve", "close", "connectB", "connectX"}
 
 type c05API struct {
 	Ops []int `json:"ops"`
@@ -462,7 +462,7 @@ func c05APIRun(cs c05API, ch vrt.Chooser, trace bool) (*world.World, *vrt.Exec, 
 		w = world.New(libIP)
 		s := w.NewServer(libIP)
 		w.NW.OnDial(remAddr, func(int, *net.TCPAddr) vnet.DialOutcome { return vnet.DialOutcome{Kind: vnet.DialRefuse} })
-		nServe, nServeDone := 0, 0
+		nServe, nServeDone, nConn := 0, 0, 0
 		closed := false
 		for _, op := range cs.Ops {
 			switch c05APIOps[op] {
@@ -496,6 +496,25 @@ func c05APIRun(cs c05API, ch vrt.Chooser, trace bool) (*world.World, *vrt.Exec, 
 			case "close":
 				s.Close()
 				closed = true
+			case "connectB", "connectX":
+				// a TCP connection arrives (from the configured passive peer B / from an unconfigured
+				// address) and is left to the server: whatever the API does next meets it in flight
+				src := "10.0.0.3"
+				if c05APIOps[op] == "connectX" {
+					src = "10.0.0.9"
+				}
+				nConn++
+				for n := 1; n <= nServe; n++ {
+					if cn, err := w.NW.DialIn(fmt.Sprintf("%s:%d", src, 41000+10*nConn+n), fmt.Sprintf("10.0.0.1:%d", 178+n)); err == nil {
+						r := w.NewRemote(cn, "conn")
+						vrt.GoWorld(fmt.Sprintf("conn%d.%d", nConn, n), func() {
+							r.Deadline(20 * time.Second)
+							r.Drain()
+							r.C.Close()
+							r.Finish()
+						})
+					}
+				}
 			}
 		}
 		// liveness probe: a passive peer C added now is served if the server is serving; Close returns; every Serve returns
@@ -762,7 +781,7 @@ func c05Check(c *harness.Ctx) {
 func init() {
 	harness.Register(&harness.Check{
 		Property: "C05", Level: "exploration", NeedsConc: true, QuickS: 280, ThoroughS: 1600,
-		Rule:   "(a) at each of OpenSent/OpenConfirm/Established x both directions: every type octet x lengths {19,20,21,29,4096} x two fills, boundary header lengths, every marker octet corrupted, received NOTIFICATIONs (codes x subcodes x 8 data patterns), bursts (a session-ending message with 1-3 complete messages behind it in the same write), RFC 9072 shaped OPENs, every truncation of each valid message type followed by FIN, the OPEN body set G02 of C02, and all UPDATE bodies up to length 4 (5 thorough) over a 12-symbol alphabet decoded by a plugin that wires every exported typed decoder; after each input a second peer must still establish, Close and Serve must return, no corebgp goroutine may remain, nothing malformed may have been written; (b) every exported decoder on all byte strings up to length 2 (3 thorough) over all 256 values x 6 flag octets, every length 0..300 and boundary lengths to 70000 with four fills, UpdateDecoder on all 11x11 boundary pairs of its two length fields x total lengths up to 70000; (b') UpdateDecoder.Decode on the C16 body sets (all strings up to length 7 / 8 over the 12-symbol alphabet, grammar with length-field mutations, 4077-byte bodies), judged only for returning; (c) plugins whose OnClose joins a goroutine that is inside WriteUpdate (all schedules within delay bound 2); all API call sequences up to length 4 (5 thorough) over {AddPeer A/B/invalid, DeletePeer, GetPeer, ListPeers, Serve, Close} (repeated Serve included), each followed by a liveness probe, all schedules within delay bound 1; distinct_nontrivial counts wire cases, decoder sweep blocks and distinct API outcomes",
+		Rule:   "(a) at each of OpenSent/OpenConfirm/Established x both directions: every type octet x lengths {19,20,21,29,4096} x two fills, boundary header lengths, every marker octet corrupted, received NOTIFICATIONs (codes x subcodes x 8 data patterns), bursts (a session-ending message with 1-3 complete messages behind it in the same write), RFC 9072 shaped OPENs, every truncation of each valid message type followed by FIN, the OPEN body set G02 of C02, and all UPDATE bodies up to length 4 (5 thorough) over a 12-symbol alphabet decoded by a plugin that wires every exported typed decoder; after each input a second peer must still establish, Close and Serve must return, no corebgp goroutine may remain, nothing malformed may have been written; (b) every exported decoder on all byte strings up to length 2 (3 thorough) over all 256 values x 6 flag octets, every length 0..300 and boundary lengths to 70000 with four fills, UpdateDecoder on all 11x11 boundary pairs of its two length fields x total lengths up to 70000; (b') UpdateDecoder.Decode on the C16 body sets (all strings up to length 7 / 8 over the 12-symbol alphabet, grammar with length-field mutations, 4077-byte bodies), judged only for returning; (c) plugins whose OnClose joins a goroutine that is inside WriteUpdate (all schedules within delay bound 2); all API call sequences up to length 4 (5 thorough) over {AddPeer A/B/invalid, DeletePeer, GetPeer, ListPeers, Serve, Close, an inbound connection from the passive peer / from an unconfigured address} (repeated Serve included), each followed by a liveness probe, all schedules within delay bound 1; distinct_nontrivial counts wire cases, decoder sweep blocks and distinct API outcomes",
 		Assume: []string{"virtual network (A3)", "a panic is attributed to corebgp when its frames are on the stack"},
 		Run:    c05Check,
 		Replay: func(c *harness.Ctx, raw json.RawMessage) {
